@@ -1,5 +1,6 @@
 import SpoxModel.Lemmas.ValueProp
 import SpoxModel.Model.VPAdapt
+import SpoxModel.Model.VPHistory
 import SpoxModel.Generated.VPValueReaders
 /-!
 # C15 - value propagation is fail-safe under backend faults
@@ -76,6 +77,124 @@ theorem construct_total (sel : BackendSel) (k : Kind) (ctx : NodeCtx) (b : Backe
     ∃ outs, construct Variant.fixed sel k ctx b = .ok outs := by
   obtain ⟨vals, hv⟩ := propagate_total sel k ctx b hb
   exact ⟨merge Variant.fixed vals ctx.outputs, by simp [construct, hv]⟩
+
+
+/-! ### exactly when does a constructor raise? (round 10: the converse of `construct_total`) -/
+
+/-- The node gets as far as calling the evaluator: a backend is selected, every input Var is typed and
+    valued, and the node is not one of the guarded kinds (sampling operator, subgraph carrier, inlined
+    control flow - `NodeCtx.hasSubgraph` stands for `Traits.skips`). -/
+def consults (sel : BackendSel) (ctx : NodeCtx) : Bool :=
+  sel != .none && !(ctx.inputs.any fun i => i.type.isNone || !i.hasValue) && !ctx.hasSubgraph
+
+theorem propagate_error_iff (sel : BackendSel) (k : Kind) (ctx : NodeCtx) (b : Backend) (e : Exc) :
+    propagate Variant.fixed sel ctx b k = .error e ↔
+      (consults sel ctx = true ∧ b = .raise e ∧ e.isException = false) := by
+  by_cases h1 : (ctx.inputs.any fun i => i.type.isNone || !i.hasValue) = true
+  · cases k <;> cases sel <;> simp [propagate, propagateStd, propagateOnnx, propagateInline, consults, h1]
+  · by_cases h2 : ctx.hasSubgraph = true
+    · cases k <;> cases sel <;>
+        simp [propagate, propagateStd, propagateOnnx, propagateInline, consults, h1, h2, Variant.fixed]
+    · cases b with
+      | raise e' =>
+        by_cases he : e'.isException = true
+        · cases k <;> cases sel <;>
+            simp [propagate, propagateStd, propagateOnnx, propagateInline, consults, h1, h2, Variant.fixed,
+              runCatch, he, convertAll, convertInline_nil, keyed, dictOf] <;>
+            (intro h; cases h; simp [he])
+        · cases k <;> cases sel <;>
+            simp [propagate, propagateStd, propagateOnnx, propagateInline, consults, h1, h2, Variant.fixed,
+              runCatch, he] <;>
+            (intro h; subst h; simpa using he)
+      | ret names vals =>
+        cases k with
+        | standard =>
+          cases sel <;> simp [propagate, propagateStd, propagateOnnx, consults, h1, h2, Variant.fixed, runCatch]
+          all_goals (split <;> simp)
+        | inline g =>
+          cases sel <;> simp [propagate, propagateInline, consults, h1, h2, Variant.fixed, runCatch]
+          all_goals (split <;> simp)
+where
+  convertInline_nil : ∀ (sel : BackendSel) (zs : List (String × OutVar)),
+      convertInline sel [] zs = .ok []
+    | _, [] => rfl
+    | sel, (g, o) :: rest => by simp [convertInline, dictGet, convertInline_nil sel rest]
+
+/-- **construct_raises_iff.** The exact set of circumstances under which constructing an operator raises
+    because of value propagation (fixed tree): the evaluator itself raised something that is NOT an `Exception`
+    (KeyboardInterrupt, SystemExit ...), at a node that really consulted it - and then that very exception
+    escapes, nothing else. Every other combination of node kind, backend setting, inputs and backend behaviour
+    (any `Exception`, any ill-formed result) constructs. `construct_total` is the `←`-free half. -/
+theorem construct_raises_iff (sel : BackendSel) (k : Kind) (ctx : NodeCtx) (b : Backend) (e : Exc) :
+    construct Variant.fixed sel k ctx b = .error e ↔
+      (consults sel ctx = true ∧ b = .raise e ∧ e.isException = false) := by
+  rw [← propagate_error_iff sel k ctx b e]
+  unfold construct
+  split
+  · rename_i e' h
+    rw [h]
+    constructor <;> (intro h'; cases h'; rfl)
+  · rename_i vals h
+    rw [h]
+    simp
+
+
+/-! ### lifted to construction histories (round 10): no constructor call of any program raises -/
+
+/-- The evaluator's behaviour at this call is within the fault model (Arguments / Constants consult none). -/
+def Step.inFaultModel : Step → Prop
+  | .standard _ _ _ _ _ b _ => Backend.raisesOnlyExceptions b
+  | .inline _ _ _ _ _ _ b _ => Backend.raisesOnlyExceptions b
+  | _ => True
+
+/-- The call is one spox can be handed at this point of the program: its inputs are Vars that exist, one name
+    per input. -/
+def Step.callable (st : State) : Step → Prop
+  | .standard _ inputs inNames _ _ _ _ => inputsExist st inputs = true ∧ inNames.length = inputs.length
+  | .inline _ inputs inNames _ _ _ _ _ => inputsExist st inputs = true ∧ inNames.length = inputs.length
+  | _ => True
+
+/-- **step_total.** In ANY state (in particular after any number of earlier faults), every callable constructor
+    call - Argument, Constant / initializer, standard operator, inlined model - under every backend setting and
+    every backend behaviour of the fault model returns: one node is appended, no exception escapes. -/
+theorem step_total (st : State) (s : Step) (hf : Step.inFaultModel s) (hc : Step.callable st s) :
+    ∃ n, step Variant.fixed st s = .ok (st ++ [n]) := by
+  cases s with
+  | argument key ty => exact ⟨_, rfl⟩
+  | constant key ty p => exact ⟨_, rfl⟩
+  | standard sel inputs inNames outs traits b sem =>
+    obtain ⟨res, hres⟩ := construct_total sel .standard (mkCtx st inputs inNames outs traits.skips) b hf
+    exact ⟨{ kind := .standard, inputs := inputs, outputs := res.map (·.1), sem := sem,
+             guarded := !propagates sel traits, sampling := traits.sampling },
+      by simp [step, hc.1, hc.2, hres]⟩
+  | inline sel inputs inNames gnames outs traits b sem =>
+    obtain ⟨res, hres⟩ := construct_total sel (.inline gnames) (mkCtx st inputs inNames outs traits.skips) b hf
+    exact ⟨{ kind := .inline, inputs := inputs, outputs := res.map (·.1), sem := sem,
+             guarded := !propagates sel traits, sampling := traits.sampling },
+      by simp [step, hc.1, hc.2, hres]⟩
+
+/-- A program all of whose calls are callable where they stand and within the fault model. -/
+def Callable : State → List Step → Prop
+  | _, [] => True
+  | st, s :: rest => Step.inFaultModel s ∧ Step.callable st s ∧
+      ∀ st', step Variant.fixed st s = .ok st' → Callable st' rest
+
+/-- **history_total.** Along every such program - faults of any kind at any number of calls - every call
+    constructs: the run leaves exactly one node per call behind (`run` drops the calls that raise), and the
+    final state is reachable, so every theorem about reachable states (`C07.kept_value_conforms`: no
+    non-conforming value anywhere) holds of it. -/
+theorem history_total : ∀ (steps : List Step) (st : State), Reachable Variant.fixed st → Callable st steps →
+    (run Variant.fixed st steps).length = st.length + steps.length ∧
+      Reachable Variant.fixed (run Variant.fixed st steps)
+  | [], st, hr, _ => ⟨by simp [run], by simpa [run] using hr⟩
+  | s :: rest, st, hr, hc => by
+    obtain ⟨n, hn⟩ := step_total st s hc.1 hc.2.1
+    have ih := history_total rest (st ++ [n]) (.step s hr hn) (hc.2.2 _ hn)
+    simp only [run, hn]
+    refine ⟨?_, ih.2⟩
+    rw [ih.1]
+    simp only [List.length_append, List.length_cons, List.length_nil]
+    omega
 
 /-- What `mergeOne` can do to an output Var. -/
 theorem mergeOne_value (vals : List (String × Payload)) (o : OutVar) (pv : PropValue)
@@ -385,12 +504,25 @@ example : (construct Variant.fixed .onnxruntime .standard (ctx1 tI64x2)
       (.ret ["output"] [.arr .longlong [2] 3])).toOption.map (·.map fun ow => ow.1.value.isSome)
     = some [true] := by decide
 
+/-- non-vacuity of `history_total` / `construct_raises_iff`: a three-call program with a raising backend at the
+    second call and a `None` result at the third leaves three nodes. -/
+def faultyProgram : List Step :=
+  [ .constant "output" (some tI64x2) (.arr .i64 [2] 1),
+    .standard .reference [⟨0, 0⟩] ["input"] [("output", some tI64x2)] Traits.plain (.raise (.backend true 5)) (fun _ _ => none),
+    .standard .onnxruntime [⟨1, 0⟩] ["input"] [("output", some tI64x2)] Traits.plain (.ret ["output"] [.none]) (fun _ _ => none) ]
+
+example : (run Variant.fixed [] faultyProgram).length = 3 := by decide
+
 /-! ### the pinned tree violates the same statements -/
 
 /-- The exception that escaped the constructor, if any. -/
 def raised {α} : Except Exc α → Option Exc
   | .error e => some e
   | .ok _ => none
+
+/-- a KeyboardInterrupt-like class at a consulting node escapes (`construct_raises_iff`, non-vacuity) -/
+example : raised (construct Variant.fixed .reference .standard (ctx1 tI64x2) (.raise (.backend false 9)))
+    = some (.backend false 9) ∧ consults .reference (ctx1 tI64x2) = true := by decide
 
 /-- Pinned: a 2-element list for a tensor-typed output makes the constructor raise TypeError;
     an unknown output name makes it raise KeyError; an inhomogeneous tuple, ValueError. -/
